@@ -206,13 +206,31 @@ func VerifC04Indexes() {
 		d.table.Insert(w, o)
 		m.put(o)
 	}
-	if vnd.Param("PRE", 0) > 0 {
+	// BIGPRE: primary keys "p" and "p"+17 distinct bytes (a node48 carrying a
+	// value in the primary index; one delete shrinks it to a node16)
+	if bp := vnd.Param("BIGPRE", 0); bp > 0 {
+		o := &vobj{id: []byte{'p'}, tags: [][]byte{{'x'}}, val: 40}
+		d.table.Insert(w, o)
+		m.put(o)
+		for i := 0; i < bp; i++ {
+			o := &vobj{id: []byte{'p', byte('A' + i)}, tags: [][]byte{{'x'}}, val: uint64(60 + i)}
+			d.table.Insert(w, o)
+			m.put(o)
+		}
+	}
+	if vnd.Param("PRE", 0) > 0 || vnd.Param("BIGPRE", 0) > 0 {
 		w.Commit()
 		w = d.db.WriteTxn(d.table)
 	}
 	for i := 0; i < N; i++ {
 		id := bytesOrNil("id", L)
-		op := vnd.IntRange("op", 0, 2+vnd.Param("REJECTED", 1))
+		if bp := vnd.Param("BIGPRE", 0); bp > 0 {
+			// keys around the big node: "p" + one byte next to / among its children
+			b := vnd.Byte("idb")
+			vnd.Assume(vnd.And(b >= 'A'-1, b <= byte('A'+bp)))
+			id = []byte{'p', b}
+		}
+		op := vnd.IntRange("op", vnd.Param("OPMIN", 0), 2+vnd.Param("REJECTED", 1))
 		if op == 3 {
 			// always-rejected compare-and-delete / compare-and-swap: nothing changes
 			if vnd.Bool("cad") {
